@@ -18,6 +18,13 @@ structure Env where
   cls : Cls
   isPrint : Nat → Bool
 
+/-- parse.go unescape (fix F13): the backslash of every escape sequence is removed and the escaped byte kept, so an
+    escaped backslash survives; a lone backslash at the very end is dropped -/
+def unescape : Bytes → Bytes
+  | [] => []
+  | [c] => if c == 92 then [] else [c]
+  | c :: d :: rest => if c == 92 then d :: unescape rest else c :: unescape (d :: rest)
+
 /-- parse.go parseLiteral.  Never fails. -/
 def parseLiteral (t : Tok) : Expr :=
   if t.typ = .quoted then lit (.prim (.str (t.val.filter (· != 34))))
@@ -31,7 +38,7 @@ def parseLiteral (t : Tok) : Expr :=
       | some f => lit (.prim (.flt f))
       | none =>
         if containsWild t.val then mkLeaf (.prim (.str t.val)) .wild
-        else if t.val.any (· == 92) then lit (.prim (.str (t.val.filter (· != 92))))
+        else if t.val.any (· == 92) then lit (.prim (.str (unescape t.val)))
         else lit (.prim (.str t.val))
 
 /-- reduce.go wrapLiteral: `Eq(Column(field), lit)` for a bare literal when a default field is set -/
